@@ -49,13 +49,17 @@ def render(kind, ir, method=False):
     return to_code(ast.fix_missing_locations(ast.Module(body=[node], type_ignores=[])))
 
 
-def mk_args(truth, given, method):
+EXTRA = "/p/second_of_truth_kind.py"
+
+
+def mk_args(truth, given, method, extra=False, files=None):
+    files = files or FILES
     d = {"truth": truth}
     for k in KINDS:
         plural = {"argparse_function": "argparse_functions", "class": "classes", "function": "functions"}[k]
         names = {"argparse_function": "argparse_function_names", "class": "class_names", "function": "function_names"}[k]
         if k in given:
-            d[plural] = [FILES[k]]
+            d[plural] = [files[k]] + ([EXTRA] if (extra and k == truth) else [])
             d[names] = [fn_name(method) if k == "function" else NAMES[k]]
         else:
             d[plural] = None
@@ -84,13 +88,13 @@ def project(truth, given, pre, method, ir_idx, trailing_nl=True):
     return files
 
 
-def run_sync(fs, truth, given, method):
+def run_sync(fs, truth, given, method, extra=False, files=None):
     """doctrans.conformance.ground_truth on the stub; returns (effect, stdout)"""
     undo = install(fs, *MODS)
     out = io.StringIO()
     try:
         with redirect_stdout(out):
-            eff = doctrans.conformance.ground_truth(mk_args(truth, given, method), FILES[truth])
+            eff = doctrans.conformance.ground_truth(mk_args(truth, given, method, extra, files), (files or FILES)[truth])
     finally:
         undo()
     return eff, out.getvalue()
